@@ -525,6 +525,8 @@ def state_items(d):
 
 def known_hist(c, r):
     if "exc" in r: return None
+    k = known_det({"det": c["det"]}, r)
+    if k in ("D31-unbound-null-keyword-dropped", "D34-one-element-nested-list-unwraps-per-round"): return k
     for n, d in r["state"]["dets"]:
         for i in state_items(d):
             if i["o"] and "re" not in i["m"] and any("s" in v and parts_bs_adjacent(v["s"]) for v in i["o"]):
